@@ -1099,6 +1099,93 @@ def seq_chain(fn, e):
     return e
 
 
+def _map_tree(e, fnc):
+    """rebuild an expression tree bottom-up through fnc (applied to every tuple node after its children)"""
+    if not isinstance(e, tuple):
+        return e
+    out = []
+    for x in e:
+        if isinstance(x, tuple):
+            out.append(_map_tree(x, fnc))
+        elif isinstance(x, list):
+            out.append([(y[0], _map_tree(y[1], fnc)) if (isinstance(y, tuple) and len(y) == 2 and isinstance(y[0], str) and isinstance(y[1], tuple))
+                        else (_map_tree(y, fnc) if isinstance(y, tuple) else y) for y in x])
+        else:
+            out.append(x)
+    return fnc(tuple(out))
+
+
+def simplify(e):
+    """projections of literal aggregates: (a, b).0 -> a ; S{f: v}.f -> v ; unwrap_Some(Some(v)) -> v"""
+    def one(x):
+        if x and x[0] == 'field' and isinstance(x[1], tuple):
+            b = x[1]
+            if b[0] == 'tuple' and str(x[2]).isdigit() and int(x[2]) < len(b[1]):
+                return b[1][int(x[2])]
+            if b[0] == 'agg':
+                for k, v in b[2]:
+                    if k == x[2]:
+                        return v
+        if x and x[0] == 'payload' and isinstance(x[1], tuple) and x[1][0] == 'agg' and x[1][1].endswith('::' + x[2]) and x[1][2]:
+            i = x[3] if len(x) > 3 and isinstance(x[3], int) else 0
+            if i < len(x[1][2]):
+                return x[1][2][i][1]
+        return x
+    return _map_tree(e, one)
+
+
+def subst_closure(cf, body, params, caps):
+    """closure body in the creator's terms: parameter i (MIR arg i+1; arg 1 is the environment) -> params[i-1]; upvar j -> caps[j]"""
+    def one(x):
+        if x and x[0] == 'arg' and isinstance(x[1], int) and 2 <= x[1] <= len(params) + 1:
+            return params[x[1] - 2]
+        if x and x[0] == 'upvar' and isinstance(x[1], int) and x[1] < len(caps):
+            return caps[x[1]]
+        return x
+    return _map_tree(body, one)
+
+
+def split_values(fn, e, limit=24):
+    """the finite set of value trees an expression can stand for, obtained by (1) splitting every local with 2..4 definitions
+    (a value merged from the arms of a match / if) into one tree per definition, (2) splitting Option::map(X, closure) into
+    None and Some(closure body), and simplifying projections of literal aggregates.  Over-approximates the reachable values
+    (independent splits are combined freely); used by rules that compare the SET of outcomes with an expected one."""
+    P = fn.prog
+    work, done = [e], []
+    guard = 0
+    while work and guard < 400:
+        guard += 1
+        cur = simplify(work.pop())
+        target = None
+        for x in walk(cur):
+            if not isinstance(x, tuple) or not x:
+                continue
+            if x[0] == 'var' and isinstance(x[1], int):
+                ds = fn.defs().get(x[1], [])
+                if 2 <= len(ds) <= 4 and not (1 <= x[1] <= fn.nargs):
+                    exprs = [fn.expr_of_def(d) for d in ds]
+                    if not any(any(y == x for y in walk(d_)) for d_ in exprs):   # not loop-carried
+                        target = ('var', x, exprs)
+                        break
+            if x[0] == 'call' and re.search(r'Option::<T>::map$', x[1]) and len(x[2]) == 2 and x[2][1][0] == 'closure' and x[2][1][1] in P.fns:
+                cf = P.fns[x[2][1][1]]
+                ex = cf.exits()
+                if len(ex) == 1:
+                    body = subst_closure(cf, ex[0]['expr'], [('payload', x[2][0], 'Some', 0)], x[2][1][2])
+                    target = ('map', x, [('agg', 'std::option::Option::None', []), ('agg', 'std::option::Option::Some', [('0', body)])])
+                    break
+        if target is None:
+            if cur not in done:
+                done.append(cur)
+            continue
+        _, node, alts = target
+        for a in alts:
+            work.append(_map_tree(cur, lambda y, node=node, a=a: a if y == node else y))
+        if len(work) + len(done) > limit:
+            return done + work
+    return done + work
+
+
 def MAPM(methods):
     """regex (string) for a method of a std map type, whatever the container (HashMap or BTreeMap)"""
     return r'(?:HashMap|BTreeMap)::<[^>]*>::(?:%s)$' % methods
